@@ -33,6 +33,11 @@ class ScanEvent:
 
 def _normalise_scan_args(ba) -> dict:
     a = dict(ba.arguments)
+    # pattern options given as one-shot iterables must reach the library untouched: such a scan is not judged by R-SCAN
+    a["_opaque"] = any(a.get(k) is not None and not isinstance(a.get(k), (tuple, list, str)) for k in ("exclusions", "regex_exclusions", "external_exclusions", "regex_external_exclusions"))
+    if a["_opaque"]:
+        a.update(_globs=(), _regexes=(), _ext_globs=(), _ext_regexes=())
+        return a
     excl = a.get("exclusions")
     rex = a.get("regex_exclusions")
     a["_globs"] = tuple(excl) if excl else ()
@@ -71,7 +76,7 @@ def _wrap_scan():
             monitors_trace.judge_entry_point(a, "error", type(e).__name__)
             owner = getattr(HUB, "scan_crash_owner", None)
             try:
-                valid = owner and not monitors_trace.entry_point_invalid_reasons(a) and os.path.isdir(str(a["root_path"])) and os.path.isdir(str(a["module_path"]))
+                valid = owner and not a.get("_opaque") and not monitors_trace.entry_point_invalid_reasons(a) and os.path.isdir(str(a["root_path"])) and os.path.isdir(str(a["module_path"]))
             except Exception:  # noqa: BLE001
                 valid = False
             if valid:
@@ -96,8 +101,10 @@ def _wrap_scan():
             se.nodes, se.imps = truth_from_state(se.state)
             se.hierarchy = hierarchy_problems(se.state)
             try:
-                if "SCAN" in HUB.judges:
+                if "SCAN" in HUB.judges and not a.get("_opaque"):
                     _judge_scan(se)
+                elif a.get("_opaque"):
+                    HUB.acc.count("scans_with_iterator_options_not_judged_by_the_model")
             except Exception as e:  # noqa: BLE001
                 HUB.acc.count("scan_model_errors")
                 HUB.acc.hist("scan_model_error", f"{type(e).__name__}: {e}"[:200])
